@@ -134,7 +134,7 @@ def dyadic_region(rng, kind=None):
 
 class Check(PropertyCheck):
     id = 'C15'
-    lean_targets = ['RegionsVerif.Props.C15', 'RegionsVerif.Props.C15Box', 'RegionsVerif.Props.C15Mask', 'RegionsVerif.Props.C15Area', 'RegionsVerif.Props.C01Convex', 'RegionsVerif.Bridge.FormulasC15', 'RegionsVerif.Bridge.RotateGlue']
+    lean_targets = ['RegionsVerif.Props.C15', 'RegionsVerif.Props.C15Box', 'RegionsVerif.Props.C15Mask', 'RegionsVerif.Props.C15Area', 'RegionsVerif.Props.C15Poly', 'RegionsVerif.Props.C01Convex', 'RegionsVerif.Props.C01Fan', 'RegionsVerif.Bridge.FormulasC15', 'RegionsVerif.Bridge.RotateGlue']
     namespaces = ['RegionsVerif.Props.C15', 'RegionsVerif.Bridge.C15', 'RegionsVerif.Bridge.RotateGlue']
     rule = ('rotation: all pixel region classes incl. regular polygons, annuli, lines/points/text and compounds to depth 2 x '
             'rotation centres (near, far) x angles of any magnitude/sign/unit x query points scaled to the shape; '
@@ -143,7 +143,7 @@ class Check(PropertyCheck):
     assumptions = ['floating-point rounding of the rotated coordinates (a few ulp of |p|+|centre|) is excepted: numeric parameters are '
                    'compared within 1e-9*(scale), membership only outside a boundary band max(1e-9, 1e-13*(|p|+|o|)/size)',
                    'bounding boxes under translation: sides within 1e-9 of a pixel edge with inexact trigonometry are excepted']
-    validated_only = ['rotation invariance of the even-odd rule for NON-convex polygons (equivalent to ray-direction independence; proved for triangles and strictly convex polygons in C01Tri/C01Convex): '
+    validated_only = ['rotation invariance of the even-odd rule at positions ON a fan line of a polygon (a null set; proved in generic position for arbitrary polygons via the fan parity, C01Fan / C15Poly): '
                       'decided by the differential run against the exact crossing oracle on rotated polygons',
                       'mask arrays unchanged under translation are a theorem for the model (C15Mask.mask_shift, center/subpixels); exact mode and the compiled kernels: checked on the real code (exact array equality)']
 
